@@ -468,8 +468,8 @@ impl Report {
             "{}: tier={} evaluations={} distinct_nontrivial={} outcome_classes={} violations={} known={} wall={:.1}s",
             self.property,
             self.tier.as_str(),
-            evals,
-            nontrivial,
+            ev["coverage"]["evaluations"],
+            ev["coverage"]["distinct_nontrivial"],
             ev["coverage"]["distinct_outcome_classes"],
             unmatched.len(),
             matched.len(),
